@@ -85,12 +85,15 @@ func AsInt(obj Object) (int64, *Error) {
 
 func AsByte(obj Object) (byte, *Error) {
 	switch obj := obj.(type) {
-	case *Int:
-		return byte(obj.value), nil
+	case *Int, *Float:
+		// A number is a byte only if it is one of 0..255
+		v, err := integerInRange(obj, 0, math.MaxUint8, "byte")
+		if err != nil {
+			return 0, NewError(err)
+		}
+		return byte(v), nil
 	case *Byte:
 		return obj.value, nil
-	case *Float:
-		return byte(obj.value), nil
 	case *String:
 		if len(obj.value) != 1 {
 			return 0, TypeErrorf("type error: expected a single byte string (length %d)", len(obj.value))
